@@ -38,7 +38,10 @@ POOLS = {
     object: [None, 'txt', 5, D('2.5')],
     amount.Amount: [None, A(D('1.50'), 'USD'), A(D('-1200.5'), 'USD'), A(D('3'), 'HOOL'), A(D('0.0001'), 'ETH')],
     position.Position: [None, position.Position(A(D('2'), 'HOOL'), Cost(D('100.25'), 'USD', date(2020, 1, 1), None)), position.Position(A(D('-5.5'), 'USD'), None)],
-    inventory.Inventory: [None, mkinv(), mkinv(('1.5', 'USD', None)), mkinv(('2', 'HOOL', '100'), ('3', 'HOOL', '110.5'), ('-4.25', 'USD', None)), mkinv(('7', 'EUR', None), ('1', 'USD', None))],
+    inventory.Inventory: [None, mkinv(), mkinv(('1.5', 'USD', None)), mkinv(('2', 'HOOL', '100'), ('3', 'HOOL', '110.5'), ('-4.25', 'USD', None)), mkinv(('7', 'EUR', None), ('1', 'USD', None)),
+                          mkinv(('4', 'HOOL', None), ('9', 'USD', None)), mkinv(('1', 'EUR', '1.1'), ('2', 'EUR', None), ('3', 'USD', None))],
+    # costs: with and without date, without label, with a label, with the empty label
+    Cost: [None, Cost(D('100.25'), 'USD', date(2020, 1, 1), None), Cost(D('12.00'), 'USD', date(2020, 1, 2), ''), Cost(D('7'), 'EUR', None, None), Cost(D('3.5'), 'USD', None, '')],
 }
 TYPES = list(POOLS)
 
@@ -181,6 +184,34 @@ def check(case):
     for ci, ps in dotpos.items():
         if len(ps) > 1:
             return ('decimals in a column are aligned on the decimal point', {**info, 'column': ci}, sorted(ps), 'one position')
+    # inventories in tabular (not expanded) form: the positions of one commodity line up across rows - a commodity held in at most
+    # k lots per inventory occupies k slots, so its units currency ends at no more than k different offsets in the column
+    if not expand and not spaced:
+        for ci, t in enumerate(coltypes):
+            if t is not inventory.Inventory:
+                continue
+            invs = [x[ci] for x in rows if x[ci] is not None]
+            slots = {}
+            for inv in invs:
+                cnt = {}
+                for p in inv.get_positions():
+                    cnt[p.units.currency] = cnt.get(p.units.currency, 0) + 1
+                for c, k in cnt.items():
+                    slots[c] = max(slots.get(c, 0), k)
+            if sum(slots.values()) > 5 or not slots:
+                continue
+            ends = {c: set() for c in slots}
+            for r, line in zip(rows, body):
+                if r[ci] is None:
+                    continue
+                cell = split_cells(line, widths, colsep, lead, trail)[ci]
+                flat = re.sub(r'\{[^}]*\}', lambda m: '#' * len(m.group(0)), cell)       # costs in braces are not units
+                for c in slots:
+                    for m in re.finditer(r'(?<![A-Za-z])' + re.escape(c) + r'(?![A-Za-z])', flat):
+                        ends[c].add(m.end())
+            bad = {c: sorted(e) for c, e in ends.items() if len(e) > slots[c]}
+            if bad:
+                return ('positions of an inventory column are aligned in slots, one slot per lot of a commodity', {**info, 'column': ci}, bad, slots)
     # CSV
     out = io.StringIO()
     try:
